@@ -100,6 +100,17 @@ func decls() native.Declarations {
 		"Emit":   func(env native.Env, a ...any) { env.Print(fmt.Sprint(a...), "\n") },
 		"Sprint": func(a ...any) string { return fmt.Sprint(a...) },
 		"Apply":  func(f func(int) int, x int) int { return f(x) + 1 },
+		// natives that call Scriggo function values (callable.Value: a new VM per call)
+		"Until": func(f func() bool) {
+			for !f() {
+			}
+		},
+		"Each": func(n int, f func(int)) {
+			for i := 0; i < n; i++ {
+				f(i)
+			}
+		},
+		"GoCall": func(f func()) { go f() },
 		"Sum": func(xs ...int) int {
 			s := 0
 			for _, x := range xs {
